@@ -28,3 +28,28 @@ PROPS["C17"] = {
     "level_text": "Kernel-checked theorems that the model of PosCache.LnCol (binary search) and LnCol (linear scan) equal the declarative line/column specification for every byte string and every integer offset; the model is tied to token.go by running both on all texts up to a length bound and random byte strings on every check.",
     "level_note": "Trusted: Lean kernel; the hand-written model's fidelity is checked by correspondence, not proved; Go range-over-string decoding is modelled byte-wise.",
 }
+
+
+def _mk(pid, modules, rule, technique, level_text, level_note, extra_tb=(), exhaustive=False, assumptions=(), args=()):
+    PROPS[pid] = {
+        "modules": modules, "theorems": None, "rule": rule, "exhaustive": exhaustive,
+        "trusted_base": TB_COMMON + list(extra_tb),
+        "assumptions": list(assumptions) or ["Go int is 64 bit", "hand-written model tied by the correspondence run on every check"],
+        "technique": technique, "level_text": level_text, "level_note": level_note, "args": list(args),
+    }
+
+TB_FLOAT = "Lean Float (C double) = Go float64 for + - * / comparisons and int64->float64 (exercised by the operator table, not proved); floats cross the protocol as bit patterns"
+
+_mk("C02",
+    ["Platypus.Properties.C02", "Platypus.Properties.C02Facts"],
+    rule="exhaustive operator x ordered operand pair table (14 binary operators x 51 operand representatives incl. 0, +-1, 2^53+-1, "
+         "min/max int64, +-0.0, inf, nan, strings, lists, maps; 3 unary; 5 compound assignments), operands as literals wrapped in probes "
+         "(evaluation order/once observable), a sample (quick) or all (thorough) pairs with operands from variables and point fields, "
+         "random expression trees of depth <= 3; every case is one script run through the real parser+checker+interpreter and through the Lean model; "
+         "strict: any disagreement on these single-expression programs is a specification failure; distinct = distinct case line",
+    technique="Lean 4 theorems about the operator functions of the model for all operand values + decide-checked regenerated tables (arithType/cmpType/condTrue/assign2arithOp, v1=v2) + exhaustive operator-table correspondence",
+    level_text="Kernel-checked theorems (all 64-bit integers, all float bit patterns, all strings, all heaps) that the model's operators wrap, truncate, promote, "
+               "compare, short-circuit and reject exactly as the reference says; the decision tables are regenerated from runtime.go/run.go on every run and matched by decide; "
+               "the model is tied to the implementation by the exhaustive operator x operand-class table run through both.",
+    level_note="Float arithmetic itself is IEEE hardware on both sides (trusted); parser literal folding is outside this property (C06/C07).",
+    extra_tb=[TB_FLOAT], exhaustive=True)
